@@ -5,7 +5,7 @@ Property theorems only (helpers: Proofs/Marker*.lean).  Strings are `List Char`;
 length the code sorts by.  The regex engine, `to_lowercase`/`to_uppercase` and the `heck` conversions are
 parameters.
 -/
-import RioModel.Proofs.Marker
+import RioModel.Proofs.MarkerMatch
 set_option linter.unusedSimpArgs false
 
 namespace Rio.C10
@@ -48,5 +48,212 @@ theorem substitution (vs : List (Str × Str)) (t : Str)
     (noJoinP_sortByLen idEsc vs _ ((noJoinItems_iff idEsc vs _).mp hjoin))
   rw [render_parse, fill_sortByLen] at h
   exact h
+
+/-- The statement of DESIGN §5-C10 (hypotheses NoAtInValues and NoStrayAt only). -/
+def SubstitutionDesignStatement : Prop :=
+  ∀ (vs : List (Str × Str)) (t : Str), namesNoAt vs = true → valuesNoAt vs = true → noStrayAt vs t = true →
+    replaceVars t (sortByLen vs) = subst vs t
+
+/-- It is false: target `@id@year` with `id = 7`, `id2 = 9`, `year = 2024` gives `9024` instead of `72024` — the
+value of `@year` joins the text `@id` into `@id2`, and `@id2` is replaced before `@id` (finding `join`; the same
+input is a pinned replay against the real code). -/
+theorem substitution_design_statement_fails : ¬ SubstitutionDesignStatement := by
+  intro h
+  have := h [(['i','d'], ['7']), (['i','d','2'], ['9']), (['y','e','a','r'], ['2','0','2','4'])]
+    ['@','i','d','@','y','e','a','r'] (by decide) (by decide) (by decide)
+  revert this
+  decide
+
+/-- What the code computes on that input, and what the simultaneous substitution gives. -/
+theorem join_witness :
+    let vs : List (Str × Str) := [(['i','d'], ['7']), (['i','d','2'], ['9']), (['y','e','a','r'], ['2','0','2','4'])]
+    replaceVars ['@','i','d','@','y','e','a','r'] (sortByLen vs) = ['9','0','2','4'] ∧
+    subst vs ['@','i','d','@','y','e','a','r'] = ['7','2','0','2','4'] ∧ noJoin vs ['@','i','d','@','y','e','a','r'] = false := by
+  decide
+
+/-- The sort matters: without it the shorter name clobbers the longer one (`@id2` with `id` first gives `72`). -/
+theorem substitution_fails_without_sort :
+    let vs : List (Str × Str) := [(['i','d'], ['7']), (['i','d','2'], ['9'])]
+    namesNoAt vs = true ∧ valuesNoAt vs = true ∧ noJoin vs ['@','i','d','2'] = true ∧
+    replaceVars ['@','i','d','2'] vs = ['7','2'] ∧
+    replaceVars ['@','i','d','2'] (sortByLen vs) = ['9'] ∧ subst vs ['@','i','d','2'] = ['9'] := by
+  decide
+
+/-- Excluded point 1: a value containing `@shorter` is substituted again (`valuesNoAt` is needed). -/
+theorem value_with_at_is_resubstituted :
+    let vs : List (Str × Str) := [(['a','b'], ['@','c']), (['c'], ['z'])]
+    namesNoAt vs = true ∧ valuesNoAt vs = false ∧
+    replaceVars ['/','@','a','b'] (sortByLen vs) = ['/','z'] ∧ subst vs ['/','@','a','b'] = ['/','@','c'] := by
+  decide
+
+/-- Excluded point 2: a stray `@` in front of a reference whose value is empty reads as a new reference
+(`noJoin` covers stray `@`s). -/
+theorem stray_at_joins :
+    let vs : List (Str × Str) := [(['a','b'], []), (['c','d'], ['x'])]
+    namesNoAt vs = true ∧ valuesNoAt vs = true ∧ noJoin vs ['@','@','a','b','c','d'] = false ∧
+    replaceVars ['@','@','a','b','c','d'] (sortByLen vs) = ['x'] ∧ subst vs ['@','@','a','b','c','d'] = ['@','c','d'] := by
+  decide
+
+/-- Under the hypotheses of `substitution` the result does not depend on the order (nor on repetitions after
+the first entry of a name) of the variable list — in particular not on the iteration order of the HashMap of
+captured markers. -/
+theorem substitution_order_irrelevant (vs vs' : List (Str × Str)) (t : Str)
+    (hn : ∀ m, m ∈ names vs ↔ m ∈ names vs') (hl : ∀ n, vs.lookup n = vs'.lookup n)
+    (hnames : namesNoAt vs = true) (hvals : valuesNoAt vs = true) (hjoin : noJoin vs t = true)
+    (hnames' : namesNoAt vs' = true) (hvals' : valuesNoAt vs' = true) :
+    replaceVars t (sortByLen vs) = replaceVars t (sortByLen vs') := by
+  have hjoin' : noJoin vs' t = true := by
+    rw [noJoin, noJoinItems_iff] at hjoin ⊢
+    rw [← parse_congr hn t]
+    exact noJoinP_congr idEsc hn hl _ hjoin
+  rw [substitution vs t hnames hvals hjoin, substitution vs' t hnames' hvals' hjoin', subst_congr hn hl]
+
+/-- … and without them it does: two equal-length names, one value containing a reference to the other
+(finding `hashmap-order`). -/
+theorem order_matters_outside_hypotheses :
+    let vs : List (Str × Str) := [(['a'], ['@','b']), (['b'], ['z'])]
+    let vs' : List (Str × Str) := [(['b'], ['z']), (['a'], ['@','b'])]
+    replaceVars ['@','a'] (sortByLen vs) = ['z'] ∧ replaceVars ['@','a'] (sortByLen vs') = ['@','b'] := by
+  decide
+
+/-! ### The regex of a template is its token view -/
+
+/-- **regex_is_tokens.**  For plain marker names (no regex meta character, no `@`) and marker expressions without
+`@`, the two strings `MarkerString::new` builds by escaping the template and replacing `@name`, longest name first,
+are the renderings of the token view of the template: escaped literal chars and `(?:re)` resp. `(?P<name>re)`
+groups, a group for every `@` followed by a known name (the longest one). -/
+theorem regex_is_tokens (t : Str) (ms : List (Str × Str))
+    (hplain : namesPlain ms = true) (hre : regexNoAt ms = true) :
+    (build t ms).regex = renderRegex (tokens t ms) ∧ (build t ms).capture = renderCapture (tokens t ms) := by
+  apply build_eq_tokens
+  · intro p hp
+    simp only [namesPlain, List.all_eq_true] at hplain
+    exact (plainName_iff _).mp (hplain p hp)
+  · intro p hp
+    simp only [regexNoAt, List.all_eq_true] at hre
+    exact (noAt_iff _).mp (hre p hp)
+
+/-- The same for the value returned by `MarkerString::new`. -/
+theorem markerString_is_tokens (t : Str) (ms : List (Str × Str)) (ic : Bool) (m : MarkerString)
+    (hplain : namesPlain ms = true) (hre : regexNoAt ms = true) (h : MarkerString.new t ms ic = some m) :
+    m.regex = renderRegex (tokens t ms) ∧ m.capture = renderCapture (tokens t ms) ∧ m.ignoreCase = ic := by
+  have := regex_is_tokens t ms hplain hre
+  simp only [MarkerString.new] at h
+  split at h
+  · simp at h
+  · simp at h; subst h; exact ⟨this.1, this.2, rfl⟩
+
+/-- Both hypotheses are needed.  A name with a meta character is never found in the escaped template; an
+expression containing `@shorter` is rewritten by the later marker. -/
+theorem regex_is_tokens_needs_plain :
+    (build ['@','a','.','b'] [(['a','.','b'], ['x'])]).regex = ['@','a','\\','.','b'] ∧
+    renderRegex (tokens ['@','a','.','b'] [(['a','.','b'], ['x'])]) = ['(','?',':','x',')'] := by
+  decide
+
+theorem regex_is_tokens_needs_regexNoAt :
+    (build ['@','a','b'] [(['a','b'], ['@','c']), (['c'], ['z'])]).regex = ['(','?',':','(','?',':','z',')',')'] ∧
+    renderRegex (tokens ['@','a','b'] [(['a','b'], ['@','c']), (['c'], ['z'])]) = ['(','?',':','@','c',')'] := by
+  decide
+
+/-! ### Matching: instantiations match, a match is a decomposition, rejected values do not match -/
+
+section engine
+variable (L : Str → Str → Prop) (ceq : Char → Char → Bool)
+variable (full search : Str → Str → Bool) (caps : Str → Str → Option (List (Str × Str)))
+
+/-- **instantiation_matches.**  If every marker value is accepted by its expression, the instantiated template
+is matched by the matching regex (`^regex$`: path through the radix-tree leaf, host). -/
+theorem instantiation_matches (laws : EngineLaws L ceq full search caps) (hrefl : ∀ c, ceq c c = true)
+    (t : Str) (ms : List (Str × Str)) (hplain : namesPlain ms = true) (hre : regexNoAt ms = true)
+    (v : Str → Str) (hacc : ∀ n re, Tok.grp n re ∈ tokens t ms → L re (v n)) :
+    full (build t ms).regex (instOf (tokens t ms) v) = true := by
+  rw [(regex_is_tokens t ms hplain hre).1, laws.full_iff]
+  exact ⟨_, decomp_inst L ceq hrefl _ v hacc⟩
+
+/-- The same for a header trigger (`Regex::new(regex).is_match(value)`, unanchored). -/
+theorem instantiation_matches_header (laws : EngineLaws L ceq full search caps) (hrefl : ∀ c, ceq c c = true)
+    (t : Str) (ms : List (Str × Str)) (hplain : namesPlain ms = true) (hre : regexNoAt ms = true)
+    (v : Str → Str) (hacc : ∀ n re, Tok.grp n re ∈ tokens t ms → L re (v n)) :
+    search (build t ms).regex (instOf (tokens t ms) v) = true := by
+  rw [(regex_is_tokens t ms hplain hre).1, laws.search_iff]
+  exact ⟨[], _, [], _, by simp, decomp_inst L ceq hrefl _ v hacc⟩
+
+/-- **matches_iff_decomposition.** -/
+theorem matches_iff_decomposition (laws : EngineLaws L ceq full search caps)
+    (t : Str) (ms : List (Str × Str)) (hplain : namesPlain ms = true) (hre : regexNoAt ms = true) (s : Str) :
+    full (build t ms).regex s = true ↔ ∃ vs, Decomp L ceq (tokens t ms) s vs := by
+  rw [(regex_is_tokens t ms hplain hre).1, laws.full_iff]
+
+/-- **rejected_not_matches.**  For a delimiter-separated template (`Delimited`: every marker is the last token or
+is followed by a literal char that occurs neither in its instantiated value nor in any string its expression
+accepts) the instantiation decomposes only into itself; so if one value is rejected by its expression, the
+instantiated string is not matched by `^regex$`. -/
+theorem rejected_not_matches (laws : EngineLaws L ceq full search caps) (hrefl : ∀ c, ceq c c = true)
+    (t : Str) (ms : List (Str × Str)) (hplain : namesPlain ms = true) (hre : regexNoAt ms = true)
+    (v : Str → Str) (hdelim : Delimited L ceq v (tokens t ms))
+    (n re : Str) (hmem : Tok.grp n re ∈ tokens t ms) (hrej : ¬ L re (v n)) :
+    full (build t ms).regex (instOf (tokens t ms) v) = false := by
+  cases hf : full (build t ms).regex (instOf (tokens t ms) v) with
+  | false => rfl
+  | true =>
+    obtain ⟨vs, hvs⟩ := (matches_iff_decomposition L ceq full search caps laws t ms hplain hre _).mp hf
+    exact absurd ((decomp_unique L ceq hrefl v _ hdelim vs hvs).2 n re hmem) hrej
+
+/-- Match ⇔ all values accepted, for delimiter-separated templates. -/
+theorem match_iff_all_accepted (laws : EngineLaws L ceq full search caps) (hrefl : ∀ c, ceq c c = true)
+    (t : Str) (ms : List (Str × Str)) (hplain : namesPlain ms = true) (hre : regexNoAt ms = true)
+    (v : Str → Str) (hdelim : Delimited L ceq v (tokens t ms)) :
+    full (build t ms).regex (instOf (tokens t ms) v) = true ↔ ∀ n re, Tok.grp n re ∈ tokens t ms → L re (v n) := by
+  constructor
+  · intro hf
+    obtain ⟨vs, hvs⟩ := (matches_iff_decomposition L ceq full search caps laws t ms hplain hre _).mp hf
+    exact (decomp_unique L ceq hrefl v _ hdelim vs hvs).2
+  · exact instantiation_matches L ceq full search caps laws hrefl t ms hplain hre v
+
+/-- Without delimiters another decomposition may exist: `@a@b` with `a = [0-9]+`-like (accepts `1`, rejects `1x`)
+and `b` accepting `xy` and `y`: the instantiation `a := 1x`, `b := y` is also `a := 1`, `b := xy`.  Stated for any
+language with those four facts. -/
+theorem rejected_may_match_without_delimiter (laws : EngineLaws L ceq full search caps)
+    (a b : Str) (h1 : L a ['1']) (h3 : L b ['x','y']) :
+    let ts := [Tok.grp ['a'] a, Tok.grp ['b'] b]
+    let v : Str → Str := fun n => if n = ['a'] then ['1','x'] else ['y']
+    full (renderRegex ts) (instOf ts v) = true := by
+  intro ts v
+  rw [laws.full_iff]
+  refine ⟨[(['a'], ['1']), (['b'], ['x','y'])], ?_⟩
+  have : instOf ts v = ['1'] ++ (['x','y'] ++ []) := by
+    simp [ts, v, instOf]
+  rw [this]
+  exact .grp h1 (.grp h3 .nil)
+
+/-- A header trigger is searched unanchored: a rejected value that *contains* an accepted one matches
+(finding `header-unanchored`: the rule matches, the anchored capture regex does not, the markers stay
+unsubstituted). -/
+theorem header_rejected_value_matches (laws : EngineLaws L ceq full search caps)
+    (n re w x y : Str) (hw : L re w) : search (renderRegex [Tok.grp n re]) (x ++ w ++ y) = true := by
+  rw [laws.search_iff]
+  exact ⟨x, w, y, [(n, w)], rfl, by simpa using (Decomp.grp (ceq := ceq) (n := n) hw .nil)⟩
+
+/-- **Captures are the instantiation** (capture law + unique decomposition): for a delimiter-separated template
+with distinct marker names, instantiated with accepted values, the capture regex returns exactly the
+instantiation. -/
+theorem captures_are_instantiation (laws : EngineLaws L ceq full search caps) (hrefl : ∀ c, ceq c c = true)
+    (t : Str) (ms : List (Str × Str)) (hplain : namesPlain ms = true) (hre : regexNoAt ms = true)
+    (v : Str → Str) (hnodup : (groupNames (tokens t ms)).Nodup) (hdelim : Delimited L ceq v (tokens t ms))
+    (hacc : ∀ n re, Tok.grp n re ∈ tokens t ms → L re (v n)) :
+    ∃ m, caps (build t ms).capture (instOf (tokens t ms) v) = some m ∧
+      ∀ n, m.lookup n = (groupValues (tokens t ms) v).lookup n := by
+  rw [(regex_is_tokens t ms hplain hre).2]
+  have hd := decomp_inst L ceq hrefl (tokens t ms) v hacc
+  have hsome := laws.caps_complete (tokens t ms) _ hnodup ⟨_, hd⟩
+  cases hc : caps (renderCapture (tokens t ms)) (instOf (tokens t ms) v) with
+  | none => rw [hc] at hsome; simp at hsome
+  | some m =>
+    refine ⟨m, rfl, ?_⟩
+    obtain ⟨vs, hvs, hlk⟩ := laws.caps_sound _ _ m hnodup hc
+    rw [(decomp_unique L ceq hrefl v _ hdelim vs hvs).1] at hlk
+    exact hlk
+
+end engine
 
 end Rio.C10
